@@ -129,3 +129,37 @@ def implies(test: Form, spec: Form, max_atoms: int = 14) -> Tuple[bool, Optional
         if ev(test, env) and not ev(spec, env):
             return False, env
     return True, None
+
+
+def counterexamples(test: Form, spec: Form, max_atoms: int = 14) -> List[Dict[str, object]]:
+    """All assignments with `test` true and `spec` false (the ways the implication fails)."""
+    names = sorted(atoms(test) | atoms(spec))
+    if len(names) > max_atoms:
+        raise ValueError("too many atoms")
+    lits: Dict[str, Set[int]] = {}
+
+    def collect(f):
+        if f[0] == "num":
+            lits.setdefault(f[1], set()).add(f[3])
+        elif f[0] in ("and", "or"):
+            for x in f[1]:
+                collect(x)
+        elif f[0] == "not":
+            collect(f[1])
+
+    collect(test)
+    collect(spec)
+    doms = []
+    for n in names:
+        if n in lits:
+            doms.append(tuple(sorted({c + d for c in lits[n] for d in (-1, 0, 1)})))
+        elif " <=> " in n:
+            doms.append(("lt", "eq", "gt"))
+        else:
+            doms.append((False, True))
+    out = []
+    for vals in itertools.product(*doms):
+        env = dict(zip(names, vals))
+        if ev(test, env) and not ev(spec, env):
+            out.append(env)
+    return out
